@@ -312,6 +312,7 @@ mutual
 /-- float tokens are number tokens with a point or exponent; object keys are unique -/
 def TextOk : J → Bool
   | flo t => validFlo t.toList
+  | .time _ => false
   | arr xs => TextOkL xs
   | obj kvs => TextOkM kvs && distinctKeys (keys kvs)
   | _ => true
@@ -396,6 +397,7 @@ theorem writeV_head (lay : Layout) (d : Nat) (j : J) (hj : TextOk j = true) :
     obtain ⟨_, c, tl, h, hc⟩ := validFlo_head _ hj
     exact ⟨c, tl, by simp [writeV, h], hnum c hc⟩
   | str s => exact ⟨'"', _, rfl, by decide, by decide, by decide⟩
+  | time t => simp [TextOk] at hj
   | arr xs => cases xs <;> exact ⟨'[', _, rfl, by decide, by decide, by decide⟩
   | obj kvs =>
     cases kvs with
@@ -448,6 +450,7 @@ theorem parseValue_writeV (lay : Layout) (hl : lay.WsOnly) : (j : J) → TextOk 
       have := parseValue_num f ws t.toList rest (flo (String.ofList t.toList)) hws hall hhead hr (classify_flo _ hj)
       rw [String_ofList_toList] at this
       exact this
+  | .time t, hj, d, fuel, ws, rest, hws, hf, hr => by simp [TextOk] at hj
   | .str s, _, d, fuel, ws, rest, hws, hf, hr => by
       obtain ⟨f, rfl⟩ : ∃ f, fuel = f + 1 := ⟨fuel - 1, by simp [need] at hf; omega⟩
       simp only [writeV, writeStr, List.cons_append, List.append_assoc, List.nil_append, parseValue, skipWs_ws_append _ _ hws]
@@ -565,6 +568,7 @@ theorem need_le_length (lay : Layout) : (j : J) → TextOk j = true → ∀ d, n
       obtain ⟨_, c, tl, h, _⟩ := validFlo_head _ hj
       simp [need, writeV, h]
   | .str s, _, d => by simp [need, writeV, writeStr]
+  | .time t, hj, d => by simp [TextOk] at hj
   | .arr [], _, d => by simp [need, writeV, needL]
   | .arr (x :: xs), hj, d => by
       simp only [TextOk, TextOkL, Bool.and_eq_true] at hj
@@ -683,7 +687,7 @@ mutual
 theorem need_pos : (j : J) → 0 < need j
   | .arr _ => by simp [need]; omega
   | .obj _ => by simp [need]; omega
-  | .null | .bool _ | .int _ | .flo _ | .str _ => by simp [need]
+  | .null | .bool _ | .int _ | .flo _ | .str _ | .time _ => by simp [need]
 end
 
 theorem length_writeDocs (lay : Layout) (ds : List (List Char × J)) (h : ∀ d ∈ ds, TextOk d.2 = true) :
